@@ -1,1 +1,8 @@
-"""A-MPL model (filled in for C18)"""
+"""A-MPL: Line2D(xdata, ydata, **kwargs) draws markers/segments at the given data points"""
+
+
+class Line2D:
+    def __init__(self, xdata, ydata, **kwargs):
+        self.xdata = xdata
+        self.ydata = ydata
+        self.kwargs = dict(kwargs)
